@@ -446,6 +446,51 @@ def build_run(cfg, mods):
     return errors, out, '', crashes
 
 
+def miri(cfg, named_items, hostile=False):
+    """Run the probe crate of `named_items` under Miri (nightly toolchain): an execution of undefined behaviour in the
+    expansion (a reached `unreachable_unchecked`, a tag read of the wrong width or alignment through the pointer
+    cast, ..) stops the interpreter with a diagnostic. Returns a report dict with `failures`."""
+    mods, qss = [], []
+    for idx, (name, it) in enumerate(named_items):
+        qs = [] if getattr(it, 'expect_error', None) else queries_for(it, cfg)
+        qss.append(qs)
+        mods.append(rust_probe(idx, it, cfg, qs, hostile))
+    errors, out, runerr, crashes = build_run(cfg, mods)       # native run first: removes items that do not build
+    d = os.path.join(runner.WORK, 'exec-' + cfg)
+    env = dict(os.environ)
+    env.update(CARGO_TARGET_DIR=os.path.join(runner.TARGET, 'miri-' + cfg), CARGO_NET_OFFLINE='true',
+               MIRIFLAGS='-Zmiri-disable-isolation')
+    args = ['cargo', '+nightly', 'miri', 'run', '--offline', '-q'] + (['--features', 'z'] if cfg in ('zeroize', 'zod', 'safe-zod') else [])
+    r = subprocess.run(args, cwd=d, env=env, stdout=subprocess.PIPE, stderr=subprocess.PIPE, text=True)
+    rep = dict(config=cfg, items=len(named_items), queries=sum(len(q) for q in qss), failures=[], miri_exit=r.returncode)
+    last, mout = None, {}
+    for line in r.stdout.split('\n'):
+        parts = line.split('|')
+        if parts[0] == 'BEGIN':
+            last = (int(parts[1]), -1)
+        elif len(parts) >= 3 and parts[0].isdigit():
+            mout[(int(parts[0]), int(parts[1]))] = parts[2:]
+            last = (int(parts[0]), int(parts[1]))
+    rep['observations'] = len(mout)
+    if r.returncode != 0:
+        ub = 'Undefined Behavior' in r.stderr
+        idx = last[0] if last else None
+        name, it = named_items[idx] if idx is not None else ('?', None)
+        q = qss[idx][last[1] + 1] if idx is not None and last[1] + 1 < len(qss[idx]) else ('?', None, None)
+        rep['failures'].append(dict(name=name, source=it.rust() if it else '', config=cfg, operation=q[0],
+                                    operands=[enc(x) for x in q[1:] if x is not None],
+                                    expected=['no undefined behaviour (Miri)'],
+                                    observed=[('Miri: Undefined Behavior: ' if ub else 'Miri stopped: ') + r.stderr[-600:].replace('\n', ' ')],
+                                    spec='defined'))
+    elif out is not None:
+        diff = [k for k in out if k in mout and out[k] != mout[k]]
+        for k in diff[:3]:
+            name, it = named_items[k[0]]
+            rep['failures'].append(dict(name=name, source=it.rust(), config=cfg, operation=qss[k[0]][k[1]][0], operands=[],
+                                        expected=['the native result ' + str(out[k])], observed=['under Miri ' + str(mout[k])], spec='same'))
+    return rep
+
+
 # ------------------------------------------------------------------ expectations
 
 def rust_discrs(item):
